@@ -206,11 +206,12 @@ impl<W: 'static, R: 'static, T: 'static> XGenerator<W, R, T> {
                 // and a violation among the discarded elements is not discarded
                 let skipped = iter::from_fn(move || {
                     while to_skip > 0 {
+                        let discarded = inner.next()?;
                         if !matches!(permits.next(), Some(Ok(()))) {
                             return Some(Err(RuntimeViolation::MaximumSearch));
                         }
                         to_skip -= 1;
-                        if let Err(violation) = inner.next()? {
+                        if let Err(violation) = discarded {
                             return Some(Err(violation));
                         }
                     }
